@@ -44,7 +44,7 @@ def run_case(case):
         resolved = simprop.run_steps(sim, case, EXTRA)
         own = [v for v in sim.all_viol if v[0] in OWN and (OWN[v[0]] is None or v[1] in OWN[v[0]])]
         converged = True
-        if not own:
+        if not own and not sim.viol:        # (a monitor of another property stopped the case: state is tainted, no closing verdict)
             # closing phase: observers must converge with the voters
             sim.blocked = set()
             for n in sim.ro:
